@@ -498,6 +498,10 @@ func Exec(p *Program, io *StageIO) (*StageResult, error) {
 		// stage writes under its own files directory.  Top-level file outputs
 		// use the path mrp pre-populated in _outs.
 		n := argOf(io, "n").Int()
+		if n >= 10 {
+			// elements of GEN.arr (a mapped producer over a run-time array)
+			n = n%10 + 1
+		}
 		pad := 100
 		for _, o := range st.Outs {
 			if io.OutsTemplate != nil && io.OutsTemplate.K == VObj {
@@ -532,6 +536,9 @@ func Exec(p *Program, io *StageIO) (*StageResult, error) {
 	case "SPLITW":
 		// split stage writing files in every phase
 		n := argOf(io, "n").Int()
+		if n >= 10 {
+			n = n%10 + 1
+		}
 		switch io.Phase {
 		case "split":
 			var chunks []*Val
